@@ -21,7 +21,7 @@ DELIMS = [',', '\t', ' ', ';']
 STR_PRELUDE = 'From Coq Require Import String Ascii.'
 
 
-PER_CLASS = 2
+PER_CLASS = 1
 
 
 def report(ctx, site, what, **fields):
@@ -303,6 +303,8 @@ def run(ctx, scratch):
                 'list of their rows and with the oracle, scan_header model vs implementation; save/load on random datasets compared '
                 'field by field; generated GraphML files. distinct = hash of (entry point, arguments); non-trivial = at least one '
                 'edge / one member / one attribute and not an error case')
+    ctx.notes.append('save/load, GraphML, non-ASCII names and float weights are checked by the oracle only (pickle / npz / '
+                     'ElementTree are outside the model): partial')
     ctx.assumptions = [
         'string identifiers are not parseable as numbers (such strings are read as integers by design) and are ASCII in the model diff',
         'weights are non-zero integers (a zero weight lists no edge); at least one edge',
@@ -372,7 +374,7 @@ def part_paths(ctx, impl, rng, quick, root):
                     ct[len(cd) - 1].startswith(cd[-1])
                 report(ctx, 'is_within_directory', 'check differs from component-wise containment', case=case, expected=spec,
                               observed=iv, defect='sibling_prefix_admitted' if sib else 'other')
-        if pairs:
+        if pairs and c == 'w/data/foo':
             ctx.sample(dict(kind='within', cwd='{ROOT}/' + c, directory=pairs[0][0], target=pairs[0][1], model=model[0], impl=got[0]))
 
 
@@ -461,8 +463,8 @@ def part_extract(ctx, impl, rng, quick, root):
             if not want <= have:
                 report(ctx, 'safe_extract', 'accepted members are missing after extraction', case=case, expected=sorted(want),
                               observed=sorted(have), defect='missing')
-        if len(ctx.samples) < 4 and fam.startswith('outside'):
-            ctx.sample(dict(kind='extract', case=case, model_accepts=mv, impl=o['outcome'], new_paths=new))
+        if fam == 'outside_single' and mem[1][0] == '../foobar/x':
+            ctx.sample(dict(kind='extract', case=case, model_accepts=mv, impl=o['outcome'], new_paths=new), limit=2)
     shutil.rmtree(sub, ignore_errors=True)
 
 
@@ -472,12 +474,13 @@ def part_extract(ctx, impl, rng, quick, root):
 def part_edges(ctx, impl, rng, quick):
     cases = []      # (family, entry, impl_args, coq_expr, id_kind_norm, edges_for_oracle, flags)
 
-    def add(fam, id_kind, pairs, weights, fl, as_array=False):
+    def add(fam, id_kind, pairs, weights, fl, as_array=False, model=True):
         kind, npairs = norm_ids(id_kind, pairs)
         tuples = [list(p) + ([w] if weights is not None else []) for p, w in zip(pairs, weights or [None] * len(pairs))]
         args = dict(edges=tuples, flags=fl, as_array=as_array)
         edges = [(a, b, (weights[k] if weights is not None else 1)) for k, (a, b) in enumerate(npairs)]
-        cases.append((fam, 'from_edge_list', 'edge_list', args, edges_expr(npairs, weights, kind, fl), kind, edges, fl))
+        expr = edges_expr(npairs, weights, kind, fl) if model else None
+        cases.append((fam, 'from_edge_list', 'edge_list', args, expr, kind, edges, fl))
 
     # exhaustive tiny inputs: every flag combination on a fixed set of hand-made multisets
     tiny = [('int', [(0, 1), (1, 0)], None), ('int', [(0, 1), (1, 0), (0, 1), (2, 2)], None),
@@ -500,6 +503,18 @@ def part_edges(ctx, impl, rng, quick):
                 continue
             f = dict(fl, shape=rand_shape(rng), matrix_only=rng.choice([None, None, True, False]))
             add('rnd_%s' % id_kind, id_kind, pairs, weights, f, as_array=(id_kind == 'int' and rng.random() < 0.2))
+    # outside the model (oracle only): non-ASCII names, dyadic float weights
+    for _ in range(6 if quick else 40):
+        id_kind, pairs, weights = gen_edges(rng, 10, id_kind=rng.choice(['int', 'str']))
+        if id_kind == 'str':
+            ren = {a: a + rng.choice(['é', 'ß', '名', '']) for a in {x for e in pairs for x in e}}
+            pairs = [(ren[a], ren[b]) for a, b in pairs]
+            fam = 'oracle_unicode'
+        else:
+            weights = [rng.choice([0.5, 1.5, 2.0, 0.25, 3.0]) for _ in pairs]
+            fam = 'oracle_float_weights'
+        for fl in all_flag_combos():
+            add(fam, id_kind, pairs, weights, dict(fl, shape=None, matrix_only=None), model=False)
     # adjacency lists (list of lists of integers) and dicts (string keys)
     for _ in range(40 if quick else 300):
         n = rng.randint(1, 7)
@@ -520,7 +535,7 @@ def part_edges(ctx, impl, rng, quick):
     # model
     model = [None] * len(cases)
     for kind in ('int', 'str'):
-        idx = [i for i, c in enumerate(cases) if c[5] == kind]
+        idx = [i for i, c in enumerate(cases) if c[5] == kind and c[4] is not None]
         vals = coq_eval('c18' + kind, ['Base.Util', 'Model.Parse', 'Gen.ParseCalls'], [cases[i][4] for i in idx],
                         prelude=STR_PRELUDE)
         for i, v in zip(idx, vals):
@@ -532,12 +547,12 @@ def part_edges(ctx, impl, rng, quick):
         got = conv_impl(r)
         recip = has_reciprocal(edges)
         ctx.count('%s:%s' % (site, fam), (fn, args), True)
-        if {k: v for k, v in got.items() if k != 'detail'} != model[i]:
+        if model[i] is not None and {k: v for k, v in got.items() if k != 'detail'} != model[i]:
             report(ctx, site, 'implementation differs from the model', case=args, expected=model[i], observed=got,
                           kind='correspondence', family=fam)
         oracle_check(ctx, site, args, got, edges, fl, kind, fam)
-        if i % 700 == 0:
-            ctx.sample(dict(kind=fn, family=fam, args=args, model=model[i], impl=got, reciprocal=recip))
+        if i in (3, 1500):
+            ctx.sample(dict(kind=fn, family=fam, args=args, model=model[i], impl=got, reciprocal=recip), limit=4)
 
 
 # ---------------------------------------------------------------------------------------------
@@ -598,8 +613,8 @@ def part_csv(ctx, impl, rng, quick, root):
             report(ctx, 'from_csv', 'file and list of its rows give different graphs', case=case, expected=got2, observed=got,
                           defect='other', family=fam)
         scan_cases.append((text, d, case, fam))
-        if k % 50 == 0:
-            ctx.sample(dict(kind='from_csv', case=case, impl=got, rows=got2))
+        if k == 5:
+            ctx.sample(dict(kind='from_csv', case=case, impl=got, rows=got2), limit=5)
     # adjacency-list files (numeric; an empty line means no neighbour) and adjacency dicts
     for k in range(30 if quick else 300):
         nrow = rng.randint(2, 6)
@@ -715,8 +730,8 @@ def part_saveload(ctx, impl, rng, quick, root):
         stray = [f[0] for f in o['fs']['files'] if not f[0].startswith(bundle_rel + '/')]
         if stray:
             report(ctx, 'save/load', 'save wrote outside the bundle folder', case=case, expected=bundle_rel, observed=stray, defect='other')
-        if k % 40 == 0:
-            ctx.sample(dict(kind='save_load', case=case, files=[f[0] for f in o['fs']['files']], diffs=o['diffs']))
+        if k == 1:
+            ctx.sample(dict(kind='save_load', case=case, files=[f[0] for f in o['fs']['files']], diffs=o['diffs']), limit=6)
     shutil.rmtree(sub, ignore_errors=True)
 
 
@@ -802,6 +817,6 @@ def part_graphml(ctx, impl, rng, quick, root):
             report(ctx, 'from_graphml', 'parsed graph differs from the file (%s)' % ', '.join(problems), case=case,
                           expected=dict(n=n, ids=None if canonical else ids, entries=sorted([i, j, w] for (i, j), w in expect.items()), colors=colors),
                           observed=o, defect=defect)
-        if k % 30 == 0:
-            ctx.sample(dict(kind='graphml', text=text, impl=o))
+        if k == 2:
+            ctx.sample(dict(kind='graphml', text=text, impl=o), limit=7)
     shutil.rmtree(sub, ignore_errors=True)
